@@ -1,3 +1,4 @@
+import JxlModel.Gen.AllocOps
 /-!
 # Allocation tracker (`jxl-grid/src/alloc_tracker.rs`)
 
@@ -69,5 +70,59 @@ def NoWrap (s : State) : List Op → Prop
     (match op with
      | .expand n => s.limit + n < W
      | _ => True) ∧ NoWrap (step s op).1 ops
+
+/-! ## The atomic operations behind each step
+
+`Gen/AllocOps.lean` (regenerated from alloc_tracker.rs) lists the atomic operations each tracker
+operation applies to `bytes_left`. `microApply` is what one of them does with operand `n`. -/
+
+open Jxl.Gen.AllocOps in
+def microApply (left n : Nat) : Micro → Nat × Bool
+  | .rmwCheckedSub => if n ≤ left then (left - n, true) else (left, false)
+  | .rmwAdd => ((left + n) % W, true)
+  | .rmwSub => ((left + (W - n % W)) % W, true)
+  | _ => (left, true)
+
+/-! ## `image::ImageDecoder::set_limits` (jxl-oxide/src/integration/image.rs)
+
+The decoder remembers the limit it last installed (`current_memory_limit`) and moves the tracker
+by the difference. `new` is `max_alloc` (or `usize::MAX` for `None`). -/
+
+structure Dec where
+  tr : State
+  current : Nat
+  deriving Repr
+
+/-- `JxlDecoder::new`: tracker with `usize::MAX`, bookkeeping `usize::MAX` -/
+def Dec.init : Dec := { tr := Alloc.init (W - 1), current := W - 1 }
+
+/-- returns the new state and whether the call was accepted (`Ok`) -/
+def setLimits (d : Dec) (new : Nat) : Dec × Bool :=
+  if new > d.current then
+    ({ tr := (step d.tr (.expand (new - d.current))).1, current := new }, true)
+  else
+    match step d.tr (.shrink (d.current - new)) with
+    | (t, .ok) => ({ tr := t, current := new }, true)
+    | _ => (d, false)
+
+inductive DecOp where
+  | setLimits (new : Nat)
+  /-- the decoder's own allocations and releases in between -/
+  | tracker (op : Op)
+  deriving Repr
+
+/-- `tracker` ops are the decoder's allocations/releases: never expand/shrink (only set_limits
+resizes the tracker the decoder owns) -/
+def DecOp.wf : DecOp → Prop
+  | .setLimits new => new < W
+  | .tracker (.expand _) => False
+  | .tracker (.shrink _) => False
+  | .tracker _ => True
+
+def decStep (d : Dec) : DecOp → Dec
+  | .setLimits new => (setLimits d new).1
+  | .tracker op => { d with tr := (step d.tr op).1 }
+
+def decRun (d : Dec) (ops : List DecOp) : Dec := ops.foldl decStep d
 
 end Jxl.Alloc
